@@ -1,12 +1,14 @@
 package main
 
-// rowsyncsrc.go — emits coq/Gen/RowSyncSrc.v: the statement lists of rowSync.waitFor and
-// rowSync.signal (internal/lossy/encode_parallel.go), the worker loop of
-// encodeFrameParallel and the sequence of calls in encodeRow's macroblock loop, printed
-// with the verification hook lines removed.  Properties/C10.v states that they equal the
-// texts the L1 / L2 models transcribe (ConcWaitSignal.v: every atomic operation one step),
-// so that e.g. dropping the Lock/Unlock pair before Broadcast, moving the waiters
-// increment, or signalling before export breaks a proof obligation.
+// rowsyncsrc.go — emits coq/Gen/RowSyncSrc.v: the SEQUENCE OF SYNCHRONISATION OPERATIONS of
+// rowSync.waitFor and rowSync.signal (internal/lossy/encode_parallel.go) — operations on
+// the row's done / waiters / mu / cond fields, with the block structure around them — and
+// the order of the waitFor / signal calls in encodeRow's macroblock loop.  Identifiers of
+// local variables, hook lines and every statement that performs no such operation are
+// abstracted away, so renaming, logging or extracting a local does not change the output.
+// Properties/C10.v states that the sequences are those the L2 model has one transition for
+// (ConcWaitSignal.v), so that e.g. dropping the Lock/Unlock pair before Broadcast or moving
+// the waiters increment after the check breaks a proof obligation.
 
 import (
 	"bytes"
@@ -76,14 +78,111 @@ func genRowSyncSrc() (string, string) {
 	for _, fd := range []*ast.FuncDecl{waitFor, signal, encRow, encFrame} {
 		stripHooks(fd.Body)
 	}
-	stmts := func(b *ast.BlockStmt) []string {
+	// the sequence of synchronisation operations of a body, in program order: operations on
+	// the row's done / waiters / mu / cond (whatever the receiver variable is called), the
+	// comparison operator of a condition that contains one, the block structure around them,
+	// and returns inside such blocks.  Every other statement is a no-op for the abstraction.
+	var ops func(n ast.Node) []string
+	opOf := func(ce *ast.CallExpr) string {
+		sel, ok := ce.Fun.(*ast.SelectorExpr)
+		if !ok {
+			return ""
+		}
+		inner, ok := sel.X.(*ast.SelectorExpr)
+		if !ok {
+			return ""
+		}
+		switch inner.Sel.Name {
+		case "done", "waiters", "mu", "cond":
+		default:
+			return ""
+		}
+		t := inner.Sel.Name + "." + sel.Sel.Name
+		if sel.Sel.Name == "Add" && len(ce.Args) == 1 {
+			t += "(" + uvPrint(ce.Args[0]) + ")"
+		}
+		return t
+	}
+	exprOps := func(e ast.Expr) []string {
 		var l []string
-		for _, st := range b.List {
-			l = append(l, uvPrint(st))
+		if e == nil {
+			return l
+		}
+		ast.Inspect(e, func(x ast.Node) bool {
+			if ce, ok := x.(*ast.CallExpr); ok {
+				if t := opOf(ce); t != "" {
+					l = append(l, t)
+				}
+			}
+			return true
+		})
+		if len(l) > 0 {
+			if be, ok := e.(*ast.BinaryExpr); ok {
+				l = append(l, be.Op.String())
+			}
 		}
 		return l
 	}
-	// encodeRow: the calls made in the macroblock loop (for x := 0; x < mbW; x++), in order
+	ops = func(n ast.Node) []string {
+		var l []string
+		switch v := n.(type) {
+		case *ast.BlockStmt:
+			for _, st := range v.List {
+				l = append(l, ops(st)...)
+			}
+		case *ast.IfStmt:
+			c, b := exprOps(v.Cond), ops(v.Body)
+			var e []string
+			if v.Else != nil {
+				e = ops(v.Else)
+			}
+			if len(c)+len(b)+len(e) > 0 {
+				l = append(l, "if[")
+				l = append(l, c...)
+				l = append(l, "]{")
+				l = append(l, b...)
+				if len(e) > 0 {
+					l = append(l, "}else{")
+					l = append(l, e...)
+				}
+				l = append(l, "}")
+			}
+		case *ast.ForStmt:
+			c, b := exprOps(v.Cond), ops(v.Body)
+			if len(c)+len(b) > 0 {
+				l = append(l, "for[")
+				l = append(l, c...)
+				l = append(l, "]{")
+				l = append(l, b...)
+				l = append(l, "}")
+			}
+		case *ast.ReturnStmt:
+			l = append(l, "return")
+		case *ast.ExprStmt:
+			l = append(l, exprOps(v.X)...)
+		case *ast.AssignStmt:
+			for _, r := range v.Rhs {
+				l = append(l, exprOps(r)...)
+			}
+		case *ast.DeferStmt:
+			if t := opOf(v.Call); t != "" {
+				l = append(l, "defer "+t)
+			}
+		}
+		return l
+	}
+	// a trailing bare return carries no information
+	trim := func(l []string) []string {
+		var out []string
+		for i, t := range l {
+			if t == "return" && (i == 0 || (l[i-1] != "]{" && l[i-1] != "}else{")) {
+				continue // return outside a synchronisation block
+			}
+			out = append(out, t)
+		}
+		return out
+	}
+	// encodeRow: the calls to waitFor / signal made in the macroblock loop, in order
 	var calls []string
 	ast.Inspect(encRow.Body, func(x ast.Node) bool {
 		fs, ok := x.(*ast.ForStmt)
@@ -96,30 +195,15 @@ func genRowSyncSrc() (string, string) {
 		}
 		ast.Inspect(fs.Body, func(y ast.Node) bool {
 			if ce, ok := y.(*ast.CallExpr); ok {
-				switch f := ce.Fun.(type) {
-				case *ast.Ident:
-					if f.Name != "int32" && f.Name != "len" {
-						calls = append(calls, f.Name)
-					}
-				case *ast.SelectorExpr:
-					calls = append(calls, uvPrint(f))
+				if f, ok := ce.Fun.(*ast.SelectorExpr); ok && (f.Sel.Name == "waitFor" || f.Sel.Name == "signal") {
+					calls = append(calls, f.Sel.Name)
 				}
 			}
 			return true
 		})
 		return false
 	})
-	// encodeFrameParallel: the worker goroutine's body
-	var worker []string
-	ast.Inspect(encFrame.Body, func(x ast.Node) bool {
-		if g, ok := x.(*ast.GoStmt); ok {
-			if fl, ok := g.Call.Fun.(*ast.FuncLit); ok {
-				worker = stmts(fl.Body)
-			}
-			return false
-		}
-		return true
-	})
+	_ = encFrame
 	var out bytes.Buffer
 	out.WriteString("(* GENERATED by tools/gosrc2v (rowsyncsrc.go) from /repo's current source. Do not edit. *)\nFrom Coq Require Import List String.\nImport ListNotations.\n\n")
 	emit := func(name string, l []string) {
@@ -132,10 +216,9 @@ func genRowSyncSrc() (string, string) {
 		}
 		out.WriteString("]%string.\n\n")
 	}
-	emit("waitFor_body", stmts(waitFor.Body))
-	emit("signal_body", stmts(signal.Body))
-	emit("worker_body", worker)
-	emit("encodeRow_mb_calls", calls)
+	emit("waitFor_ops", trim(ops(waitFor.Body)))
+	emit("signal_ops", trim(ops(signal.Body)))
+	emit("encodeRow_sync_calls", calls)
 	_ = strings.TrimSpace
 	return "RowSyncSrc.v", out.String()
 }
